@@ -89,6 +89,41 @@ def check_case(run, ao, c):
     return bad
 
 
+def large_circles(ao, rng, quick):
+    """the indicator on grids far larger than TLC's, with arbitrary (not quarter-lattice) radii and centres.  Def as in
+    Pupil.tla: pixel (row, col) has its centre at (col + 1/2, row + 1/2), origin "middle" puts (0, 0) at size/2; lit iff
+    dx^2 + dy^2 <= r^2.  Evaluated in float64; pixels within 1e-12 (relative) of the boundary are not judged, which leaves
+    every coarser arithmetic (single precision: 6e-8) exposed."""
+    from aotools.functions import pupil
+    bad = []
+    cases = [(0.35 * 1024, 1024, (0.5, 0.25), "middle"), (150.99999999999997, 501, (0.0, 0.0), "middle"), (1500.0, 3000 if not quick else 2000, (0.25, 0.5), "corner"),
+             (333.3, 700, (350.1, 349.7), "corner"), (511.9, 1024, (0.0, 0.0), "middle")]
+    for _ in range(6 if quick else 40):
+        n = int(rng.choice([257, 400, 501, 777, 1024, 1536]))
+        org = "middle" if rng.random() < 0.5 else "corner"
+        r = float(rng.uniform(0.2, 0.5) * n)
+        c0 = (float(rng.uniform(-0.1, 0.1) * n), float(rng.uniform(-0.1, 0.1) * n))
+        cases.append((r, n, c0 if org == "middle" else (c0[0] + n / 2.0, c0[1] + n / 2.0), org))
+    n_px = n_skip = 0
+    for r, n, cen, org in cases:
+        got = np.asarray(pupil.circle(r, n, cen, org))
+        co = np.arange(n, dtype=np.float64) + 0.5 - (n / 2.0 if org == "middle" else 0.0)
+        dx, dy = co - cen[0], co - cen[1]
+        d2 = dx[None, :] ** 2 + dy[:, None] ** 2
+        marg = (d2 - r * r) / (r * r)
+        judged = np.abs(marg) > 1e-12
+        want = marg <= 0
+        n_px += int(judged.sum())
+        n_skip += int((~judged).sum())
+        if got.shape != (n, n) or np.any((got != 0)[judged] != want[judged]) or np.any((got != 0) & (got != 1)):
+            wrong = np.argwhere(((got != 0) != want) & judged) if got.shape == (n, n) else []
+            bad.append(("circle:indicator:large-grid", dict(radius=r, size=n, centre=list(cen), origin=org, n_wrong=int(len(wrong)),
+                                                            first=[int(v) for v in wrong[0]] if len(wrong) else None,
+                                                            margin=float(marg[tuple(wrong[0])]) if len(wrong) else None)))
+            break
+    return bad, n_px, n_skip, len(cases)
+
+
 def run(run):
     ao = core.import_aotools()
     cfg = "Pupil_quick.cfg" if run.tier == "quick" else "Pupil_thorough.cfg"
@@ -112,6 +147,11 @@ def run(run):
             run.violation(key, detail, c)
     if not r.printed:
         raise core.MachineryError("TLC printed no case")
+    bad, n_px, n_skip, n_big = large_circles(ao, np.random.default_rng(run.seed), run.tier == "quick")
+    run.traces += n_big
+    run.aux.update(large_grid_masks=n_big, large_grid_pixels_judged=n_px, large_grid_pixels_on_the_boundary_not_judged=n_skip)
+    for key, detail in bad:
+        run.violation(key, detail, dict(kind="large", detail=detail))
     run.aux["float_tie_cases_skipped"] = skipped
     run.aux["cases_by_kind"] = kinds
     run.assumptions += [
@@ -124,6 +164,10 @@ def run(run):
 
 def replay(run, case):
     ao = core.import_aotools()
+    if case.get("kind") == "large":
+        for key, detail in large_circles(ao, np.random.default_rng(run.seed), run.tier == "quick")[0]:
+            run.violation(key, detail, case)
+        return
     res = check_case(run, ao, case)
     if res != "skipped":
         for key, detail in res:
